@@ -34,6 +34,7 @@ from ..lib import CheckResult, Violation, angle_of, ring_matrix_to_numpy
 
 TOL = 1e-8
 MEAS = ("state", "expval", "var", "probs", "dm")
+NW = 3                                     # wires of the model register (labels 0..2); padding wires come after them
 SHOT_MEAS = ("expval", "var", "probs")     # measurement types that exist for a finite-shot tape
 
 
@@ -85,6 +86,8 @@ def decode_op(r, M):
         return decode_gate(r, M)
     mat = ring_matrix_to_numpy(r["m"], M)
     wires = [w - 1 for w in r["w"]]
+    if r["x"]:                               # the array is kron(d, 1) over r["x"][0] further wires that nothing else touches
+        mat, wires = pad_array(mat, wires, r["x"][0])
     if r["g"] == "QubitUnitary":
         return qp.QubitUnitary(mat, wires=wires)
     if r["g"] == "DiagonalQubitUnitary":
@@ -94,11 +97,26 @@ def decode_op(r, M):
     return qp.StatePrep(mat[:, 0], wires=wires)
 
 
+def pad_array(mat, wires, n):
+    """kron(mat, 1) over n further wires, written without arithmetic on the zero entries (no signed zeros that would tell arrays
+    apart in their printed form)."""
+    d, P = mat.shape[0], 2 ** n
+    big = np.zeros((d * P, d * P), dtype=complex)
+    idx = np.arange(P)
+    for i in range(d):
+        for j in range(d):
+            big[i * P + idx, j * P + idx] = mat[i, j] + 0.0
+    return big, list(wires) + list(range(NW, NW + n))
+
+
 def build_meas(trec, meas, M):
     meas = trec.get("mt") or meas
     if trec.get("ot"):                       # the observable of expval / var is a data operator on wire 1
         od = ring_matrix_to_numpy(trec["od"], M)
-        obs = qp.Hermitian(od, wires=[0]) if trec["ot"] == "Hermitian" else qp.Projector(od[:, 0], wires=[0])
+        if trec.get("opad"):
+            obs = qp.Hermitian(*pad_array(od, [0], trec["opad"]))
+        else:
+            obs = qp.Hermitian(od, wires=[0]) if trec["ot"] == "Hermitian" else qp.Projector(od[:, 0], wires=[0])
         if meas not in ("expval", "var"):
             raise lib.MachineryError("a data observable is measured with expval / var only")
         return qp.expval(obs) if meas == "expval" else qp.var(obs)
@@ -641,7 +659,8 @@ def run(tier, seed):
                 rep = {"group": inst.grp["mut"], "tapes": inst.grp["tapes"], "meas": inst.meas, "ring_level_M": M,
                        "cache": {"kind": h["kind"], "maxsize": h["ms"], "literal_cache_True": literal},
                        "executions": det, "verdict": v, "model_predicted": {"err": h["err"], "sound": h["sound"]}}
-                ops = [str(t.operations[-1]) for t in inst.tapes]
+                ops = [str(t.operations[0 if g0["tapes"][0].get("zero") else -1]) + (" | " + str(t.measurements[0]) if g0["tapes"][0].get("ot") else "")
+                       for g0 in (inst.grp,) for t in inst.tapes]
                 viol.append(Violation(key=key, detail=(
                     f"{v}: tapes {ops} measuring {inst.meas}; cache={'True' if h['kind'] == 'true' else h['kind']}"
                     f"{'' if not h['ms'] else ' maxsize/cachesize=' + str(h['ms'])}; batches {[x['batch'] for x in det]}; "
